@@ -38,6 +38,12 @@ pub unsafe fn c03_dealloc(_p: core::ptr::NonNull<u8>, _l: core::alloc::Layout) {
     }
 }
 
+/// The model cuts a path on which a write sleeps on a full descriptor; the
+/// verdict for that path is taken here.
+pub fn wblock_hook(_fd: libc::c_int) {
+    assert!(false, "C03: a built-in action wrote to its pipe in a way that can block");
+}
+
 pub fn after_delivery_checks() {
     unsafe {
         if vshim::max_delivery_ops() > MAX_OPS {
@@ -62,6 +68,7 @@ pub mod proofs {
 
     fn builtin_actions(fill: u32) -> (Arc<AtomicBool>, signal_hook::SigId) {
         reg::init_globals();
+        unsafe { vshim::HOOKS.wblock = wblock_hook };
         open_fd(FD as usize, FdKind::Stream, 3, fill, false);
         let f = Arc::new(AtomicBool::new(false));
         let cond = Arc::new(AtomicBool::new(false));
@@ -123,6 +130,7 @@ pub mod proofs {
     #[kani::unwind(8)]
     pub fn c03_seq_iterator_action() {
         let s = crate::c09::mk_delivery(false);
+        unsafe { vshim::HOOKS.wblock = wblock_hook };
         let fill: u32 = kani::any();
         kani::assume(fill <= libc::vshim::net::PAIR_CAP);
         unsafe { K::fds[5].fill = fill };
@@ -138,8 +146,10 @@ pub mod proofs {
     #[kani::stub(alloc::alloc::dealloc_nonnull, c03_dealloc)]
     #[kani::unwind(7)]
     pub fn c03_lr_delivery_vs_mutator() {
-        let (f, id) = builtin_actions(0);
+        // (set before the state is built: the sequential stores of the registrations
+        // must reach the round-0 memory the LR part starts from)
         unsafe { vshim::ST::mirror_ptrs = true };
+        let (f, id) = builtin_actions(0);
         let which: bool = kani::any();
         vshim::set_mode_lr(3, 3, 0);
         vshim::thread_start(0);
@@ -165,6 +175,7 @@ pub mod proofs {
             (E_OPS, "a delivery took more steps than two read sections and its actions need"),
             (E_MAY_BLOCK, "a built-in action wrote to its pipe in a way that can block"),
         );
+        kani::cover!(f.load(Ordering::SeqCst) && vshim::consistent(), "the delivery ran the registered flag action");
         kani::cover!(which && r0 >= 1 && r1 >= 1 && vshim::consistent(), "delivery overlapped an unregister (both threads ran in more than one round)");
         kani::cover!(!which && r0 >= 1 && r1 >= 1 && vshim::consistent(), "delivery overlapped a register of another signal");
         core::mem::forget(f);
